@@ -159,6 +159,35 @@ def main():
                 tail = it[it.index('errflag'):] if 'errflag' in it else ''
                 if canon_dump(tail) != canon_dump(dumps[perm]):
                     ck.spec_failure('interleave-differs', 'database differs when queries are interleaved with load requests', rp)
+        # the by-name lookup as the VERY FIRST query after a load request, one lookup kind per process; and the public request entry point
+        # with one reused file-name buffer (first permutation of every case)
+        order0 = [ins[i] for i in perms[0]]
+        if len(order0) > 1 and perms[0] in dumps:
+            def names_of(text):
+                ty = re.findall(r'^type "((?:[^"\\]|\\.)*)" name "((?:[^"\\]|\\.)*)" scoped "((?:[^"\\]|\\.)*)"', text, re.M)
+                els = set()
+                for seg in re.findall(r' elements((?: "(?:[^"\\]|\\.)*")*) makeseqs', text):
+                    els.update(re.findall(r'"((?:[^"\\]|\\.)*)"', seg))
+                return {'type_by_true_name': {t[0] for t in ty}, 'type_by_name': {t[1] for t in ty}, 'type_by_scoped_name': {t[2] for t in ty},
+                        'element_by_scoped_name': els, 'element_by_name': {e.rsplit('::', 1)[-1] for e in els}}
+            last = names_of(subprocess.run([tool, 'query', order0[-1]], stdout=subprocess.PIPE, stderr=subprocess.PIPE, timeout=60).stdout.decode('latin-1'))
+            rest = names_of(subprocess.run([tool, 'query'] + order0[:-1], stdout=subprocess.PIPE, stderr=subprocess.PIPE, timeout=60).stdout.decode('latin-1'))
+            for kind in sorted(last):
+                cand = sorted(n_ for n_ in last[kind] - rest[kind] if n_ and '\\' not in n_ and '"' not in n_)
+                if not cand:
+                    continue
+                ck.count()
+                ck.dist('first-query-after-request:' + kind)
+                fl = subprocess.run([tool, 'firstlookup', kind, cand[0]] + order0, stdout=subprocess.PIPE, stderr=subprocess.PIPE, timeout=60).stdout.decode('latin-1')
+                if 'FIRST %s 1' % kind not in fl:
+                    ck.spec_failure('stale-lookup', '%s(%r) as the first query after the request of the file that defines it answers: %s' % (kind, cand[0], fl.strip()[:120]),
+                                    dict(rp, cmd='dbtool firstlookup %s %s <files in this order>' % (kind, cand[0])))
+            ck.count()
+            ck.dist('reused-file-name-buffer')
+            rb = subprocess.run([tool, 'query-reused-buffer'] + order0, stdout=subprocess.PIPE, stderr=subprocess.PIPE, timeout=60).stdout.decode('latin-1')
+            if canon_dump(rb) != canon_dump(dumps[perms[0]]):
+                ck.spec_failure('request:file-name-not-copied', 'interrogate_request_database called with one reused file-name buffer gives another database than separate strings '
+                                '(first differing line: %s)' % ([l for l in canon_dump(dumps[perms[0]]) if l not in canon_dump(rb)] + [''])[0][:160], dict(rp, cmd='dbtool query-reused-buffer <files>'))
         # order independence
         if len(dumps) == len(perms):
             ref = canon_dump(dumps[perms[0]])
